@@ -1428,7 +1428,8 @@ _read_reply('read_frag_reply', 0xD2, 'read_frag')
 
 def _write_req(name, svc, ctx, frag):
     def params(draw):
-        t = _nonempty(draw, d_typed_payload(draw, d_pick(draw, REPLY_TAGS), maxn=3))
+        # STRUCT often: it is the branch with the fixed limit (STRUCT( limit=2 ) reads just the structure_tag)
+        t = _nonempty(draw, d_typed_payload(draw, d_pick(draw, REPLY_TAGS + (0x02A0, 0x02A0, 0x02A0)), maxn=3))
         p = {'path': d_req_path(draw), 't': t, 'n': d_int(draw, 0, 0xFFFF)}
         if frag:
             p['off'] = d_int(draw, 0, 0xFFFFFFFF)
